@@ -2,6 +2,8 @@ import KrakenModel.Util.LTS
 import KrakenModel.Model.Retry
 import KrakenModel.Proof.C30
 import KrakenModel.Proof.C30Live
+import KrakenModel.Proof.C30Fair
+import KrakenModel.Proof.C30FairEx
 /-
   C30  Retried tasks run until they succeed, across failures and restarts.
   Statements are about `Model.Retry` (lib/persistedretry.manager over the writeback /
@@ -146,6 +148,43 @@ theorem no_absorbing_state_down (cfg : Config) (hc : WFCfg cfg) (ops : List Op) 
   obtain ⟨cont, hnf, hgone, _⟩ := no_absorbing_state cfg hc (ops ++ [.start []]) k hup hk'
   exact ⟨cont, hnf, hgone⟩
 
+/-- **C30 (7) the fairness-conditioned eventuality**, for every infinite schedule continuing any
+history that leaves the manager running: if from then on the environment is quiet (no crash, close
+or restart; no new tasks; executions succeed; no channel overflows — `FairQuiet.quiet`) and the
+schedule is fair (fetch / examine / send steps of the poller, takes of both worker pools and pending
+Add sends keep being scheduled, every execution terminates, time diverges), then every stored task
+is, at some point, executed successfully by a worker and thereby leaves the table. -/
+theorem eventually_executed_successfully (cfg : Config) (hc : WFCfg cfg) (ops : List Op) (k : Key)
+    (hup : ((sys cfg).run ops).mode = .up) (hk : stored ((sys cfg).run ops) k)
+    (sched : Nat → Op) (fair : FairQuiet ((sys cfg).run ops) sched) :
+    ∃ n, stored (traj ((sys cfg).run ops) sched n) k ∧ sched n = .finish k true ∧
+      (∃ p, placeOf (traj ((sys cfg).run ops) sched n).own k = some (.running p)) ∧
+      ¬ stored (traj ((sys cfg).run ops) sched (n + 1)) k := by
+  have hcfg : ((sys cfg).run ops).cfg = cfg := by
+    refine Sys.run_inv (sys cfg) (fun s => s.cfg = cfg) rfl ?_ ops
+    intro s a h
+    have : (step s a).cfg = s.cfg := by
+      cases a <;> simp only [step, stepO, enqueue] <;> (repeat' split) <;> rfl
+    exact this.trans h
+  obtain ⟨n, hn⟩ := fair_quiet_drains _ (good_always cfg ops) hup (by rw [hcfg]; exact hc) sched fair k hk
+  -- the first step at which the task is gone
+  have first : ∀ n, ¬ stored (traj ((sys cfg).run ops) sched n) k →
+      ∃ m, stored (traj ((sys cfg).run ops) sched m) k ∧ ¬ stored (traj ((sys cfg).run ops) sched (m + 1)) k := by
+    intro n
+    induction n with
+    | zero => intro h; exact absurd hk h
+    | succ n ih =>
+      intro h
+      by_cases hs : stored (traj ((sys cfg).run ops) sched n) k
+      · exact ⟨n, hs, h⟩
+      · exact ih hs
+  obtain ⟨m, hm1, hm2⟩ := first n hn
+  rcases removed_only_by_success _ (sched m) k hm1 hm2 with ⟨he, hp⟩ | ⟨inv, he, _⟩
+  · exact ⟨m, hm1, he, hp, hm2⟩
+  · have := fair.quiet m
+    rw [he] at this
+    exact absurd this (by simp [Quiet])
+
 -- non-vacuity: a non-trivial history (overflow, executor failure, crash in the middle of an
 -- execution, restart, retry) ends with an empty table exactly after the successful executions
 def demoCfg : Config := { capIn := 1, capRe := 1, nIn := 1, nRe := 1, retryInterval := 1 }
@@ -159,5 +198,12 @@ example : ((sys demoCfg).run demo).rows.map (fun r => (r.key, r.status, r.failur
     [(2, .pending, 1), (3, .failed, 2)] := by decide
 example : ((sys demoCfg).run (demo.take 7)).rows.map (·.status) = [.pending, .pending, .failed] := by decide
 example : stored ((sys demoCfg).run demo) 2 ∧ ¬ stored ((sys demoCfg).run demo) 1 := by decide
+
+-- non-vacuity of the fairness theorem's hypotheses: a stored failed task and a concrete round-robin
+-- schedule (advance, fetch, examine, send, take, take, finish) that is fair and quiet
+example : FairQuiet FairEx.s0 FairEx.sched := FairEx.demo_fair
+example : ∃ n, 1 ∉ keys (traj FairEx.s0 FairEx.sched n).rows :=
+  fair_quiet_drains _ FairEx.demo_stored.2.2.1 FairEx.demo_stored.2.1 FairEx.demo_stored.2.2.2 _
+    FairEx.demo_fair 1 FairEx.demo_stored.1
 
 end KrakenModel.Spec.C30
